@@ -49,6 +49,9 @@ type World struct {
 	scope      map[string]bool
 	contracts  map[*ssa.Function]*LoadedContract
 	byName     map[string]*LoadedContract
+	// contracts a package states for functions of another package (trusted summaries); they hold for calls made from
+	// the stating package only, the function's own contract (in its home package) is what its body is checked against
+	foreign map[string]map[*ssa.Function]*LoadedContract
 	lemmas     map[string]*LoadedLemma
 	relies     map[string]string
 	guards     map[string]string
@@ -73,7 +76,7 @@ const contractsFile = "zz_contracts_verif.go"
 // Load type-checks the packages with the ghost overlay and builds SSA.
 func Load(repo string, pkgPatterns []string, contractsMirror string) (*World, error) {
 	w := &World{repo: repo, spkgs: map[string]*ssa.Package{}, scope: map[string]bool{}, contracts: map[*ssa.Function]*LoadedContract{},
-		byName: map[string]*LoadedContract{}, lemmas: map[string]*LoadedLemma{}, relies: map[string]string{}, guards: map[string]string{}, lockRelies: map[string][]LockRely{}, lockInvs: map[string]LockInv{},
+		byName: map[string]*LoadedContract{}, foreign: map[string]map[*ssa.Function]*LoadedContract{}, lemmas: map[string]*LoadedLemma{}, relies: map[string]string{}, guards: map[string]string{}, lockRelies: map[string][]LockRely{}, lockInvs: map[string]LockInv{},
 		frames: map[*ssa.Function]*frameInfo{}, frameBusy: map[*ssa.Function]bool{}, implCache: map[string][]implInfo{}, spawnIDs: map[string]int{},
 		cloTab: map[*Exec]map[string]*Closure{}, ignoreContracts: map[*ssa.Function]bool{}, deterministicIface: map[string]bool{}}
 	overlay := map[string][]byte{}
@@ -199,6 +202,14 @@ func Load(repo string, pkgPatterns []string, contractsMirror string) (*World, er
 			lc.FullName = shortPkg(p.PkgPath) + "." + c.Key
 			if fnPkgPath(fn) != p.PkgPath {
 				lc.FullName = c.Key
+				if w.scope[fnPkgPath(fn)] {
+					// the function's home package is loaded too and may carry the contract its body is verified against
+					if w.foreign[p.PkgPath] == nil {
+						w.foreign[p.PkgPath] = map[*ssa.Function]*LoadedContract{}
+					}
+					w.foreign[p.PkgPath][fn] = lc
+					continue
+				}
 			}
 			w.contracts[fn] = lc
 			w.byName[lc.FullName] = lc
@@ -277,9 +288,14 @@ func (w *World) method(t types.Type, name string) *ssa.Function {
 	return nil
 }
 
-func (w *World) contractFor(fn *ssa.Function) *LoadedContract {
+func (w *World) contractFor(fn *ssa.Function, caller *ssa.Function) *LoadedContract {
 	if w.ignoreContracts[fn] {
 		return nil
+	}
+	if caller != nil {
+		if lc := w.foreign[fnPkgPath(caller)][fn]; lc != nil {
+			return lc
+		}
 	}
 	return w.contracts[fn]
 }
